@@ -304,4 +304,284 @@ theorem queryMember_eq (s : State) (a : AddrArg) (hv : a.valid = true) (at_ : Op
   simp [queryMember, hv, weight, check, bind, Except.bind, pure, Except.pure]
   rfl
 
+/-! ## 3. The total is the sum of the member weights -/
+
+/-- The invariant: the stored total is the sum of the current member weights and fits `u64`; the member
+map has one entry per address. -/
+def Inv (s : State) : Prop :=
+  s.total.cur = some (AMap.sum s.members.cur) ∧ AMap.NodupKeys s.members.cur ∧ AMap.sum s.members.cur ≤ U64_MAX
+
+/-- Loop invariant of the three loops: the running total is the sum of the map being built. -/
+def LoopInv (m : SnapMap Addr Nat) (t : Nat) : Prop :=
+  t = AMap.sum m.cur ∧ AMap.NodupKeys m.cur ∧ t ≤ U64_MAX
+
+theorem createMembers_inv {h : Nat} (l : List (AddrArg × Nat)) {m m' : SnapMap Addr Nat} {t t' : Nat}
+    (hnd : (l.map (·.1.text)).Nodup) (hfresh : ∀ a ∈ l, m.cur.get? a.1.text = none)
+    (hc : createMembers h l m t = .ok (m', t')) (hi : LoopInv m t) : LoopInv m' t' := by
+  induction l generalizing m t with
+  | nil => simp [createMembers] at hc; obtain ⟨rfl, rfl⟩ := hc; exact hi
+  | cons p rest ih =>
+    obtain ⟨a, w⟩ := p
+    simp [createMembers] at hc
+    obtain ⟨hov, _, hc⟩ := hc
+    simp at hnd
+    apply ih hnd.2 _ hc
+    · have := AMap.sum_set m.cur a.text w
+      have e : m.cur.get? a.text = none := hfresh (a, w) (by simp)
+      simp [e] at this
+      obtain ⟨rfl, hn, _⟩ := hi
+      exact ⟨by simp [SnapMap.write]; omega, by simpa [SnapMap.write] using AMap.nodup_set hn, hov⟩
+    · intro x hx
+      have hne : a.text ≠ x.1.text := fun e => hnd.1 x.1 x.2 hx e.symm
+      simp only [SnapMap.write]
+      rw [AMap.get?_set_ne _ _ _ _ hne]
+      exact hfresh x (by simp [hx])
+
+/-- Adds and re-weights: `total - old + new` keeps the total equal to the sum (and `old ≤ total`, so the
+subtraction cannot underflow). -/
+theorem applyAdds_inv {h : Nat} (l : List (AddrArg × Nat)) {m m' : SnapMap Addr Nat} {t t' : Nat} {ds : List Diff}
+    (hc : applyAdds h l m t = .ok (m', t', ds)) (hi : LoopInv m t) : LoopInv m' t' := by
+  induction l generalizing m t m' t' ds with
+  | nil => simp [applyAdds] at hc; obtain ⟨rfl, rfl, _⟩ := hc; exact hi
+  | cons p rest ih =>
+    obtain ⟨a, w⟩ := p
+    simp [applyAdds] at hc
+    obtain ⟨_, hle, hov, r, t2, d2, hr, rfl, rfl, _⟩ := hc
+    apply ih hr
+    have := AMap.sum_set m.cur a.text w
+    obtain ⟨rfl, hn, _⟩ := hi
+    simp only [SnapMap.get?] at hle hov ⊢
+    exact ⟨by simp [SnapMap.write]; omega, by simpa [SnapMap.write] using AMap.nodup_set hn, hov⟩
+
+/-- Removals: `total - old`. -/
+theorem applyRemoves_inv {h : Nat} (l : List AddrArg) {m m' : SnapMap Addr Nat} {t t' : Nat} {ds : List Diff}
+    (hc : applyRemoves h l m t = .ok (m', t', ds)) (hi : LoopInv m t) : LoopInv m' t' := by
+  induction l generalizing m t m' t' ds with
+  | nil => simp [applyRemoves] at hc; obtain ⟨rfl, rfl, _⟩ := hc; exact hi
+  | cons a rest ih =>
+    simp only [applyRemoves, check_bind_ok] at hc
+    obtain ⟨_, hc⟩ := hc
+    split at hc
+    · exact ih hc hi
+    · rename_i w hw
+      simp at hc
+      obtain ⟨hle, r, t2, d2, hr, rfl, rfl, _⟩ := hc
+      apply ih hr
+      obtain ⟨rfl, hn, hm⟩ := hi
+      have := AMap.sum_erase m.cur a.text hn
+      simp only [SnapMap.get?] at hw
+      simp [hw] at this
+      exact ⟨by simp [SnapMap.write]; omega, by simpa [SnapMap.write] using AMap.nodup_erase hn, by omega⟩
+
+theorem nodup_sortMembers {l : List (AddrArg × Nat)} (h : uniqueMembers l = true) :
+    ((sortMembers l).map (·.1.text)).Nodup := by
+  have hp := (sortMembers_perm l).map (·.1.text)
+  exact hp.nodup_iff.mpr (by simpa [uniqueMembers] using h)
+
+/-- Every accepted instantiation establishes the invariant. -/
+theorem instantiate_inv {msg : InstMsg} {h0 : Nat} {s0 : State} (hi : instantiate msg h0 = .ok s0) : Inv s0 := by
+  simp [instantiate, create] at hi
+  obtain ⟨hu, adm, _, m, t, hc, rfl⟩ := hi
+  have := createMembers_inv _ (nodup_sortMembers hu) (by simp [State.empty]) hc
+    ⟨by simp [State.empty], by simp [State.empty, AMap.NodupKeys, AMap.keys], by simp [U64_MAX]⟩
+  obtain ⟨rfl, hn, hm⟩ := this
+  exact ⟨rfl, hn, hm⟩
+
+/-- Every successful call preserves the invariant. -/
+theorem execute_inv {s s' : State} {h : Nat} {snd : Addr} {msg : Msg} {out : List Out}
+    (hi : Inv s) (he : execute s h snd msg = .ok (s', out)) : Inv s' := by
+  cases msg <;> simp only [execute] at he
+  case updateAdmin new =>
+    simp [execUpdateAdmin] at he
+    obtain ⟨_, _, _, rfl, _⟩ := he; exact hi
+  case updateMembers rem add =>
+    simp [execUpdateMembers] at he
+    obtain ⟨r, ds, hr, rfl, _⟩ := he
+    unfold updateMembers at hr
+    simp only [check_bind_ok] at hr
+    obtain ⟨_, _, hr⟩ := hr
+    obtain ⟨ht, hn, hm⟩ := hi
+    rw [ht] at hr
+    simp at hr
+    obtain ⟨m1, t1, d1, h1, m2, t2, d2, h2, rfl, _⟩ := hr
+    have i1 := applyAdds_inv _ h1 ⟨rfl, hn, hm⟩
+    obtain ⟨rfl, hn2, hm2⟩ := applyRemoves_inv _ h2 i1
+    exact ⟨rfl, hn2, hm2⟩
+  case addHook a =>
+    simp [execAddHook] at he
+    obtain ⟨_, _, _, rfl, _⟩ := he; exact hi
+  case removeHook a =>
+    simp [execRemoveHook] at he
+    obtain ⟨_, _, _, rfl, _⟩ := he; exact hi
+
+theorem stepOp_inv {s : State} (op : Op) (hi : Inv s) : Inv (stepOp s op) := by
+  unfold stepOp step
+  split
+  · rename_i s' out he; exact execute_inv hi he
+  · exact hi
+
+theorem run_inv {s : State} (ops : List Op) (hi : Inv s) : Inv (run s ops) := by
+  induction ops generalizing s with
+  | nil => exact hi
+  | cons op ops ih => exact ih (stepOp_inv op hi)
+
+/-- **C09, total = Σ weights.**  For every accepted instantiation and every history of calls (any senders,
+any heights; adds, re-weights, removals, re-adds, overlapping lists, failed calls rolled back) the total
+weight reported by `TotalWeight {}` is the sum of the current weights of all members, and it fits `u64`. -/
+theorem total_eq_sum_members {msg : InstMsg} {h0 : Nat} {s0 : State} (hi : instantiate msg h0 = .ok s0)
+    (ops : List Op) :
+    queryTotalWeight (run s0 ops) none = AMap.sum (run s0 ops).members.cur
+      ∧ AMap.sum (run s0 ops).members.cur ≤ U64_MAX := by
+  obtain ⟨ht, _, hm⟩ := run_inv ops (instantiate_inv hi)
+  exact ⟨by simp [queryTotalWeight, ht], hm⟩
+
+open Paginate in
+/-- The members as listed by `ListMembers` (ascending, all pages together) carry the same sum. -/
+theorem listed_sum (s : State) : AMap.sum (sortedEntries strLt s.members.cur) = AMap.sum s.members.cur := by
+  unfold AMap.sum sortedEntries
+  exact ((List.mergeSort_perm _ _).map (fun p : Addr × Nat => p.2)).sum_nat
+
+/-- With the invariant, the first subtraction in the add loop has `old ≤ total` … -/
+theorem old_le_total {m : SnapMap Addr Nat} {t : Nat} (hi : LoopInv m t) (a : Addr) : (m.get? a).getD 0 ≤ t := by
+  rw [hi.1]; exact AMap.get?_le_sum m.cur a
+
+theorem applyAdds_no_underflow {h : Nat} (l : List (AddrArg × Nat)) {m : SnapMap Addr Nat} {t : Nat}
+    (hi : LoopInv m t) {e : String} (he : applyAdds h l m t = .error e) : e = "addr" ∨ e = "overflow.u64" := by
+  induction l generalizing m t with
+  | nil => simp [applyAdds] at he
+  | cons p rest ih =>
+    obtain ⟨a, w⟩ := p
+    simp only [applyAdds] at he
+    by_cases hv : a.valid = true
+    · have hsub : subU64 t ((m.get? a.text).getD 0) = .ok (t - (m.get? a.text).getD 0) := by
+        simp [subU64, old_le_total hi a.text]
+      simp only [hv, check, if_true, hsub, bind, Except.bind] at he
+      by_cases hov : t - (m.get? a.text).getD 0 + w ≤ U64_MAX
+      · simp only [addU64, hov, if_true] at he
+        have hinv : LoopInv (m.write a.text h (some w)) (t - (m.get? a.text).getD 0 + w) := by
+          have := AMap.sum_set m.cur a.text w
+          have hle := old_le_total hi a.text
+          obtain ⟨rfl, hn, _⟩ := hi
+          simp only [SnapMap.get?] at hle hov ⊢
+          exact ⟨by simp [SnapMap.write]; omega, by simpa [SnapMap.write] using AMap.nodup_set hn, hov⟩
+        cases hr : applyAdds h rest (m.write a.text h (some w)) (t - (m.get? a.text).getD 0 + w) with
+        | error e' => rw [hr] at he; simp at he; subst he; exact ih hinv hr
+        | ok r => rw [hr] at he; simp [pure, Except.pure] at he
+      · simp only [addU64, hov] at he
+        simp at he; subst he; simp
+    · simp only [hv, check] at he
+      simp [bind, Except.bind] at he; subst he; simp
+
+theorem applyRemoves_no_underflow {h : Nat} (l : List AddrArg) {m : SnapMap Addr Nat} {t : Nat}
+    (hi : LoopInv m t) {e : String} (he : applyRemoves h l m t = .error e) : e = "addr" := by
+  induction l generalizing m t with
+  | nil => simp [applyRemoves] at he
+  | cons a rest ih =>
+    simp only [applyRemoves] at he
+    by_cases hv : a.valid = true
+    · simp only [hv, check, if_true, bind, Except.bind] at he
+      cases hw : m.get? a.text with
+      | none => rw [hw] at he; exact ih hi he
+      | some w =>
+        rw [hw] at he
+        have hle : w ≤ t := by have := old_le_total hi a.text; simpa [hw] using this
+        have hinv : LoopInv (m.write a.text h none) (t - w) := by
+          obtain ⟨rfl, hn, hm⟩ := hi
+          have := AMap.sum_erase m.cur a.text hn
+          simp only [SnapMap.get?] at hw
+          simp [hw] at this
+          exact ⟨by simp [SnapMap.write]; omega, by simpa [SnapMap.write] using AMap.nodup_erase hn, by omega⟩
+        simp only [subU64, hle, if_true] at he
+        cases hr : applyRemoves h rest (m.write a.text h none) (t - w) with
+        | error e' => rw [hr] at he; simp at he; subst he; exact ih hinv hr
+        | ok r => rw [hr] at he; simp [pure, Except.pure] at he
+    · simp only [hv, check] at he
+      simp [bind, Except.bind] at he; subst he; rfl
+
+/-- **The `u64` arithmetic on the total cannot underflow**: on a state satisfying the invariant (every
+reachable state), `UpdateMembers` never fails in one of its `checked_sub`s; it can fail only for a duplicate
+address in `add`, a sender who is not the admin, an invalid address, or an overflow of the total. -/
+theorem update_members_no_underflow {s : State} (hi : Inv s) (h : Nat) (snd : Addr) (rem : List AddrArg)
+    (add : List (AddrArg × Nat)) {e : String} (he : execute s h snd (.updateMembers rem add) = .error e) :
+    e = "duplicate" ∨ e = "unauthorized" ∨ e = "addr" ∨ e = "overflow.u64" := by
+  simp only [execute, execUpdateMembers] at he
+  cases hu : updateMembers s h snd rem add with
+  | ok r => rw [hu] at he; simp [bind, Except.bind, pure, Except.pure] at he
+  | error e' =>
+    rw [hu] at he; simp [bind, Except.bind] at he; subst he
+    unfold updateMembers at hu
+    obtain ⟨ht, hn, hm⟩ := hi
+    by_cases h1 : uniqueMembers add = true
+    · by_cases h2 : isAdmin s snd = true
+      · simp only [h1, h2, check, if_true, bind, Except.bind, ht] at hu
+        cases ha : applyAdds h (sortMembers add) s.members (AMap.sum s.members.cur) with
+        | error e1 =>
+          rw [ha] at hu; simp at hu; subst hu
+          rcases applyAdds_no_underflow _ ⟨rfl, hn, hm⟩ ha with h | h <;> simp [h]
+        | ok r1 =>
+          rw [ha] at hu; simp only at hu
+          obtain ⟨m1, t1, d1⟩ := r1
+          have i1 := applyAdds_inv _ ha ⟨rfl, hn, hm⟩
+          cases hr : applyRemoves h rem m1 t1 with
+          | error e2 =>
+            rw [hr] at hu; simp at hu; subst hu
+            simp [applyRemoves_no_underflow _ i1 hr]
+          | ok r2 => rw [hr] at hu; simp [pure, Except.pure] at hu
+      · simp only [h1, h2, check, if_true, bind, Except.bind] at hu
+        simp at hu; subst hu; simp
+    · simp only [h1, check, bind, Except.bind] at hu
+      simp at hu; subst hu; simp
+
+/-- In particular no `checked_sub` on the total ever fails on a reachable state. -/
+theorem update_members_never_underflows {msg : InstMsg} {h0 : Nat} {s0 : State} (hi : instantiate msg h0 = .ok s0)
+    (ops : List Op) (h : Nat) (snd : Addr) (rem : List AddrArg) (add : List (AddrArg × Nat)) :
+    execute (run s0 ops) h snd (.updateMembers rem add) ≠ .error "underflow.u64" := by
+  intro he
+  rcases update_members_no_underflow (run_inv ops (instantiate_inv hi)) h snd rem add he with h | h | h | h <;>
+    exact absurd h (by decide)
+
+/-! ## Non-vacuity: a concrete history (several changes to one address in one block, a failing stranger,
+removal and re-add in one block) on which the hypotheses hold and the conclusions are non-trivial -/
+
+def exInst : InstMsg := { admin := some ⟨true, "adm"⟩, members := [(⟨true, "bob"⟩, 3), (⟨true, "alice"⟩, 5)] }
+
+def exOps : List Op :=
+  [ ⟨12, "adm", .updateMembers [⟨true, "bob"⟩] [(⟨true, "carol"⟩, 1), (⟨true, "alice"⟩, 7)]⟩,
+    ⟨12, "adm", .updateMembers [] [(⟨true, "alice"⟩, 9)]⟩,
+    ⟨12, "bob", .updateMembers [] [(⟨true, "bob"⟩, 100)]⟩,
+    ⟨15, "adm", .updateMembers [⟨true, "alice"⟩] []⟩,
+    ⟨15, "adm", .updateMembers [] [(⟨true, "alice"⟩, 2)]⟩,
+    ⟨20, "adm", .updateMembers [] [(⟨true, "bob"⟩, 4)]⟩ ]
+
+def exState : State := (match instantiate exInst 10 with | .ok s => s | .error _ => State.empty)
+
+example : instantiate exInst 10 = .ok exState := by rfl
+example : Ordered exOps ∧ ∀ op ∈ exOps, 10 ≤ op.height := by unfold Ordered; decide
+
+example :
+    let s := run exState exOps
+    s.members.atHeight "alice" 10 = none ∧ s.members.atHeight "alice" 11 = some 5
+    ∧ s.members.atHeight "alice" 12 = some 5 ∧ s.members.atHeight "alice" 13 = some 9
+    ∧ s.members.atHeight "alice" 15 = some 9 ∧ s.members.atHeight "alice" 16 = some 2
+    ∧ s.members.atHeight "bob" 12 = some 3 ∧ s.members.atHeight "bob" 13 = none
+    ∧ s.members.atHeight "bob" 20 = none ∧ s.members.atHeight "bob" 21 = some 4
+    ∧ queryTotalWeight s (some 10) = 0 ∧ queryTotalWeight s (some 12) = 8 ∧ queryTotalWeight s (some 13) = 10
+    ∧ queryTotalWeight s (some 16) = 3 ∧ queryTotalWeight s (some 21) = 7 ∧ queryTotalWeight s none = 7
+    ∧ AMap.sum s.members.cur = 7 := by decide
+
+/-- The theorems apply to this history. -/
+example (a : Addr) (h : Nat) :
+    (run exState exOps).members.atHeight a h
+      = if h ≤ 10 then none else weight (run exState (exOps.filter (fun o => o.height < h))) a :=
+  member_at_height (msg := exInst) rfl exOps (by decide) (by unfold Ordered; decide) a h
+
+example : queryTotalWeight (run exState exOps) none = AMap.sum (run exState exOps).members.cur :=
+  (total_eq_sum_members (msg := exInst) (h0 := 10) rfl exOps).1
+
+/-- The generic theorem on a concrete write list (first write of a block wins, removal is recorded). -/
+example :
+    let m := (SnapMap.ofMap [("k", 1)]).writes [("k", 5, some 2), ("k", 5, some 3), ("k", 7, none), ("j", 7, some 8)]
+    m.atHeight "k" 5 = some 1 ∧ m.atHeight "k" 6 = some 3 ∧ m.atHeight "k" 7 = some 3 ∧ m.atHeight "k" 8 = none
+    ∧ m.atHeight "j" 7 = none ∧ m.atHeight "j" 8 = some 8 := by decide
+
 end CwPlus.Props.C09
